@@ -27,8 +27,15 @@ Inductive qop :=
 | Count (v : val)               (* Durq only *)
 | Remove (v : val)              (* Dusq only *)
 | Sync (force : bool)
-| Reopen (pre : list val).      (* store closed and reopened; a NEW queue object preloaded with
+| Reopen (pre : list val)       (* store closed and reopened; a NEW queue object preloaded with
                                    [pre] is injected at the same key (Hold.inject -> sync) *)
+(* rejected operations: an argument that is not a RegDom / IceRegDom instance (it has no
+   serialisation, so it is not a [val]) *)
+| ExtendBad (pre post : list val) (* extend / update of the batch  pre ++ [invalid] ++ post *)
+| PushBad                       (* push(invalid), invalid is not None *)
+| RemoveBad                     (* Dusq.remove(invalid) *)
+| RawPutBad (pre post : list val) (* .put(pre ++ [invalid] ++ post): the durable-side method itself *)
+| RawAddBad.                    (* .add(invalid) *)
 
 Record snap := { sn_res : res rv; sn_mem : list val; sn_store : list bytes }.
 
@@ -132,6 +139,11 @@ Section Durq.
         end
       else (s, st, Exc AttrErr)
     | Sync force => gsync set q s st force
+    (* the validation loop runs over the whole batch BEFORE anything is touched *)
+    | ExtendBad _ _ | PushBad => (s, st, Exc HierErr)
+    | RemoveBad => if set then (s, st, Exc HierErr) else (s, st, Exc AttrErr)
+    (* put()/add() clear the stale flag, then _ser raises on the invalid member before any write *)
+    | RawPutBad _ _ | RawAddBad => (s, {| mem := mem st; stale := false |}, Exc HierErr)
     | Reopen pre =>
       gsync set q s (fresh (if set then oset_update [] pre else pre)) false
     end.
@@ -172,6 +184,9 @@ Section Durq.
     | Remove v => if set then (remove1 v l, Ok (RBool (existsb (bytes_eqb v) l)))
                   else (l, Exc AttrErr)
     | Sync _ => (l, Ok (RBool true))          (* content unchanged; the result is not specified *)
+    (* a rejected operation leaves the content as it is *)
+    | ExtendBad _ _ | PushBad | RawPutBad _ _ | RawAddBad => (l, Exc HierErr)
+    | RemoveBad => (l, if set then Exc HierErr else Exc AttrErr)
     | Reopen pre =>
       match l with
       | [] => (if set then dedupe pre else pre, Ok (RBool true))
@@ -216,6 +231,9 @@ Definition drun (pyeq : val -> val -> bool) (name : N -> bytes) :=
   grun pyeq dbb (db_sstep name) (db_view name).
 
 (* ordinals a queue op can consume in the store *)
+Definition rejected (o : qop) : bool :=
+  match o with ExtendBad _ _ | PushBad | RemoveBad | RawPutBad _ _ | RawAddBad => true | _ => false end.
+
 Definition qweight (pyeq : val -> val -> bool) (set : bool) (st : queue) (o : qop) : N :=
   match o with
   | Push _ => 1
@@ -283,9 +301,10 @@ Definition check_case (c : case) : bool :=
 Definition qop_index (o : qop) : nat :=
   match o with
   | Push _ => 0 | PushNone => 1 | Extend _ => 2 | Pull _ => 3 | Clear => 4 | Count _ => 5
-  | Remove _ => 6 | Sync _ => 7 | Reopen _ => 8
+  | Remove _ => 6 | Sync _ => 7 | Reopen _ => 8 | ExtendBad _ _ => 9 | PushBad => 10
+  | RemoveBad => 11 | RawPutBad _ _ => 12 | RawAddBad => 13
   end.
-Definition n_branches : nat := 54.
+Definition n_branches : nat := 84.
 Definition case_branches (c : case) : list nat :=
-  map (fun p => ((if c_set c then 27 else 0) + qop_index (snd (fst p)) * 3 + outcome (sn_res (snd p)))%nat)
+  map (fun p => ((if c_set c then 42 else 0) + qop_index (snd (fst p)) * 3 + outcome (sn_res (snd p)))%nat)
       (combine (c_ops c) (qrun (pyeq_of (c_eq c)) (c_set c) store0 queues0 (c_ops c))).
